@@ -46,5 +46,9 @@ for pid, p in props.items():
         extra += ("Prefer changes whose effect is SILENT (the build succeeds, the generated code compiles, and only the behaviour or the bytes are wrong) over ones that make the build fail loudly; "
                   "changes that depend on a combination of two conditions (for example a certain nesting together with a certain character, or a certain call order together with a certain file name); "
                   "and changes in code that runs only for one of several equivalent ways of writing the same thing. ")
+    if int(rnd) >= 6:
+        extra += ("Also worth a look: the less common public entry points and options of the API, template-syntax corners documented in src/Template_syntax.rs, the interplay with Rust's own lexing "
+                  "(raw strings, char literals, lifetimes, nested generics, closures, macros with unusual delimiters), arithmetic on lengths and indices, and places where two data structures "
+                  "must stay in step (a map and its reverse map, a list and a counter, a buffer and its length). ")
     open('/tmp/prompts%s/%s.txt' % (rnd, pid), 'w').write(tmpl.format(wt=wt, pid=pid, title=p['title'], statement=p['statement'], quant=p['quantifier']['text'], anchors=anchors, extra=extra))
 print("ok", len(props))
